@@ -479,7 +479,7 @@ def run_shallow(ctx: Ctx) -> RuleResult:
     # the driver really skips callbacks when the table is empty
     ft = repo.func(PS + '.feed_token')
     from ..exprs import match_cond
-    ok = bool(match_cond(ft.body_nodes(), '$cb', '$cb[$r]($s)', '$s'))
+    ok = bool(match_cond(ft.body_nodes(), '$$cb', '$$cb[$r]($s)', '$s'))
     res.ob(ft.loc(), 'the LALR driver builds no tree when the callback table is empty', ok)
     if not ok:
         res.finding(ft, ft.node, 'feed_token no longer skips the rule callback when the callback table is empty', construct='driver-skip')
